@@ -515,3 +515,63 @@ def check_accumulation(prog, report):
         'time, column 1 = space (found %s)' % sorted(cols),
         construct='estimate_sobolev: symmetric accumulation')
     report.floor('R-accumulate', 3)
+
+
+def check_orders(prog, report):
+    """ErrorEstimator.__init__: which of the four quadrature orders goes
+    where."""
+    fi = prog.func(EE, 'ErrorEstimator.__init__')
+    fn = fi.node
+    unpack = None
+    for n in fn.body:
+        if isinstance(n, ast.Assign) and isinstance(
+                n.targets[0], ast.Tuple) and text(n.value) == 'N_poly':
+            unpack = [text(e) for e in n.targets[0].elts]
+    if unpack is None or len(unpack) != 4:
+        raise AnalysisError('%s: unpacking of the four orders not found' %
+                            fi.where())
+    l2, outer, tm, sx = unpack
+    a = {text(n.targets[0]): n.value for n in fn.body
+         if isinstance(n, ast.Assign) and len(n.targets) == 1}
+    g2 = a.get('self.gauss_2d')
+    ok1 = g2 is not None and text(g2).replace(' ', '') == \
+        'ProductScheme2D(gauss_quadrature_scheme(%s))' % l2
+    g1 = a.get('self.gauss')
+    ok2 = g1 is not None and text(g1).replace(' ', '') == \
+        'gauss_quadrature_scheme(%s)' % outer
+    sl = a.get('self.slobodeckij')
+    ok3 = False
+    if isinstance(sl, ast.Call) and text(sl.func) == 'Slobodeckij':
+        ci = prog.cls('src/norms.py', 'Slobodeckij')
+        params = ci.methods['__init__'].params[1:]
+        bound = {}
+        for p_, v in zip(params, sl.args):
+            bound[p_] = text(v)
+        for kw in sl.keywords:
+            bound[kw.arg] = text(kw.value)
+        ok3 = bound.get('N_poly_1_4') == tm and bound.get(
+            'N_poly_1_2') == sx
+    report.check(ok1 and ok2 and ok3, 'R-orders', 'quadrature orders',
+                 fi.where(),
+                 'of the four orders (weighted L2, outer, time, space) the '
+                 'first feeds the L2 tensor rule, the second the outer '
+                 'Gauss rule, the third the H^1/4 (time) rule and the '
+                 'fourth the H^1/2 (space) rule (l2=%s outer=%s '
+                 'slobodeckij=%s)' % (ok1, ok2, ok3),
+                 construct='ErrorEstimator.__init__: order binding')
+    # seminorm users: H^1/4 in __integrate_h_1_4 (time), H^1/2 in space
+    f4 = prog.func(EE, 'ErrorEstimator.__integrate_h_1_4')
+    f2 = prog.func(EE, 'ErrorEstimator.__integrate_h_1_2')
+    u4 = {n.func.attr for n in ast.walk(f4.node) if isinstance(n, ast.Call)
+          and isinstance(n.func, ast.Attribute)
+          and n.func.attr.startswith('seminorm')}
+    u2 = {n.func.attr for n in ast.walk(f2.node) if isinstance(n, ast.Call)
+          and isinstance(n.func, ast.Attribute)
+          and n.func.attr.startswith('seminorm')}
+    report.check(u4 == {'seminorm_h_1_4'} and u2 == {
+        'seminorm_h_1_2', 'seminorm_h_1_2_pw'}, 'R-orders',
+        'seminorm per direction', fi.where(),
+        'the time indicator integrates the H^1/4 seminorm, the space '
+        'indicator the H^1/2 seminorms (found %s / %s)' % (sorted(u4),
+                                                          sorted(u2)),
+        construct='ErrorEstimator: seminorm per direction')
